@@ -56,6 +56,12 @@ def main(tier):
     pd = quiet_pydrex()
     events, comp = layerb.run_behaviours(chk, "C08", behs + sims, fcheck=False)
     chk.cov["bound_terms"] = dict(orientations=len(comp.omap), fractions=len(comp.fmap))
+    # second pass with the documented solver keyword arguments handed to EVERY update (per-mineral and bulk alike):
+    # the content terms are bound afresh (own comparator), so twins, reorderings of the bulk list, solo and
+    # interleaved runs must again agree bit for bit - a mineral that does not receive the caller's options diverges
+    sub = (behs[::7] if quick else behs[::2]) + sims[: (30 if quick else 300)]
+    _, comp_kw = layerb.run_behaviours(chk, "C08", sub, fcheck=False, solver_kw=dict(rtol=1e-4, atol=1e-5, first_step=1e-3), sig_extra=lambda detail: dict(solver_options=True))
+    chk.cov["bound_terms_with_solver_options"] = dict(orientations=len(comp_kw.omap), fractions=len(comp_kw.fmap), behaviours=len(sub))
     chk.sample(dict(kind="interleaving", calls=[s["act"] for s in behs[17][1:]]))
     chk.sample(dict(kind="bound-term", term=json.loads(next(iter(comp.omap))), digest=next(iter(comp.omap.values()))))
     # negative control: a digest bound to a term must be rejected when it changes
